@@ -378,6 +378,49 @@ func meshHistories(c *Ctx, im *Impl) {
 				connect(r.Intn(n), r.Intn(n), float64(1+r.Intn(4)))
 			}
 		}
+		// a link one of whose directions is held back for a while (the two ends finish the handshake at
+		// different moments); sometimes it is lost again before the late end has heard anything
+		var latestRelease time.Time
+		connectHeld := func(a, b int, cost float64) string {
+			if a > b {
+				a, b = b, a
+			}
+			if a == b || links[[2]int{a, b}] != nil || !alive[tp.names[a]] || !alive[tp.names[b]] {
+				return ""
+			}
+			hold := time.Duration(1+r.Intn(4)) * consts.RouteUpdate
+			release := time.Now().Add(hold)
+			if release.After(latestRelease) {
+				latestRelease = release
+			}
+			heldEndA := r.Chance(50)
+			l, err := m.ConnectPrepared(tp.names[a], tp.names[b], cost, func(l *Link) {
+				held := 0
+				f := func(msg []byte) ([][]byte, time.Duration) {
+					if d := time.Until(release) + time.Duration(held)*3*time.Millisecond; d > 0 {
+						held++
+						return [][]byte{msg}, d
+					}
+					return [][]byte{msg}, 0
+				}
+				if heldEndA {
+					l.EndA.SetFilter(f)
+				} else {
+					l.EndB.SetFilter(f)
+				}
+			})
+			if err != nil {
+				return ""
+			}
+			if r.Chance(35) {
+				time.Sleep(time.Duration(r.Intn(int(hold))))
+				l.Cut()
+				return fmt.Sprintf("held link %d-%d lost during the handshake", a, b)
+			}
+			links[[2]int{a, b}] = l
+			tp.edges[[2]int{a, b}] = cost
+			return fmt.Sprintf("held link %d-%d", a, b)
+		}
 		cycles := len(tp.edges) >= n
 		// event history
 		var events []string
@@ -385,7 +428,7 @@ func meshHistories(c *Ctx, im *Impl) {
 		ne := 2 + r.Intn(5)
 		for e := 0; e < ne; e++ {
 			time.Sleep(time.Duration(r.Intn(250)) * time.Millisecond)
-			ev := r.Intn(5)
+			ev := r.Intn(7)
 			if t == 0 {
 				ev = 3 // the first history is a restart of a well-connected, long-lived node and nothing else
 			}
@@ -448,6 +491,10 @@ func meshHistories(c *Ctx, im *Impl) {
 						events = append(events, "restart "+id)
 					}
 				}
+			case 5, 6:
+				if ev := connectHeld(r.Intn(n), r.Intn(n), float64(1+r.Intn(4))); ev != "" {
+					events = append(events, ev)
+				}
 			default: // stop a node
 				if len(alive) > 2 {
 					i := r.Intn(n)
@@ -466,7 +513,10 @@ func meshHistories(c *Ctx, im *Impl) {
 				}
 			}
 		}
-		// bounded number of route-update periods after the last event
+		// bounded number of route-update periods after the last event (and after the last held link opened)
+		if d := time.Until(latestRelease); d > 0 {
+			time.Sleep(d + 50*time.Millisecond)
+		}
 		g := tp.graphOf(alive)
 		ok := WaitFor(12*consts.RouteUpdate+time.Second, func() bool { return meshAgrees(m, g, alive, nil) })
 		rec := map[string]interface{}{"nodes": n, "events": events, "final_edges": fmt.Sprint(tp.edges)}
@@ -565,9 +615,9 @@ func silentCrashHistory(c *Ctx, im *Impl) {
 // the link as established and hears those announcements through m2.  When the held messages arrive the link
 // is up on both sides and every table must give the direct route (cost 1), not the detour (cost 2).
 func lateHandshakeHistory(c *Ctx, im *Impl) {
-	rounds := 2
+	rounds := 4
 	if c.Thorough() {
-		rounds = 8
+		rounds = 12
 	}
 	for round := 0; round < rounds; round++ {
 		consts := FastConsts()
@@ -590,7 +640,8 @@ func lateHandshakeHistory(c *Ctx, im *Impl) {
 		}
 		hold := time.Duration(3+c.Rng.Intn(4)) * consts.RouteUpdate
 		release := time.Now().Add(hold)
-		_, err = m.ConnectPrepared("m0", "m1", 1, func(l *Link) {
+		cutEarly := round%2 == 1 // the link is lost while only m0 has finished the handshake
+		nl, err := m.ConnectPrepared("m0", "m1", 1, func(l *Link) {
 			held := 0
 			l.EndA.SetFilter(func(b []byte) ([][]byte, time.Duration) { // what m0 sends towards m1
 				// held messages are released in the order they were sent (a link does not reorder), 3 ms apart
@@ -603,6 +654,17 @@ func lateHandshakeHistory(c *Ctx, im *Impl) {
 		})
 		Must(err)
 		tp.edges[[2]int{0, 1}] = 1
+		if cutEarly {
+			// m0 counts the link as established as soon as it hears m1's first message; m1 never hears m0
+			WaitFor(hold/2, func() bool {
+				rt := m.Nodes["m0"].Status().RoutingTable
+				return rt["m1"] == "m1"
+			})
+			time.Sleep(consts.RouteUpdate / 2)
+			nl.Cut()
+			delete(tp.edges, [2]int{0, 1})
+			rec["events"] = []string{"triangle closed by a link whose m0->m1 direction is held back", "the link is lost before m1 has heard m0"}
+		}
 		g := tp.graphOf(alive)
 		time.Sleep(hold)
 		ok := WaitFor(12*consts.RouteUpdate+time.Second, func() bool { return meshAgrees(m, g, alive, nil) })
